@@ -45,6 +45,16 @@ example := C01_chunked Ex.headTE Ex.chunks Ex.last [.byte 7, .pause]
   (by decide +kernel) (by decide +kernel) (by decide +kernel) (by decide +kernel) (by decide +kernel)
   (by decide +kernel)
 
+/-- non-vacuity, with a trailer section: the same, but the last-chunk (`00;q`) is followed by two
+    trailer field lines (`Expires: never`, `X-Sum: 1`) before the final empty line; the payload is the
+    same and the garbage behind the frame is not touched -/
+example := C01_chunked Ex.headTE Ex.chunks Ex.lastT [.byte 7, .pause]
+  (Ex.seg (Ex.headTE.render ++ encChunks Ex.chunks ++ Ex.lastT.enc) ++ [.data [7], .pause]) 8 4 100 .get
+  [0, 3, 100, 1, 5, 5, 0, 2]
+  (by decide +kernel) (by decide) (by decide) (by decide +kernel) (by decide +kernel)
+  (by decide +kernel) (by decide +kernel) (by decide +kernel) (by decide +kernel) (by decide +kernel)
+  (by decide +kernel)
+
 /-- (2) `Content-Length` framing: only `Ok` events, the bytes handed out are a prefix of the
     `Content-Length` octets `body` (nothing from `trail`, the bytes after the frame), a read with a
     non-empty buffer returns `Ok(0)` exactly when all of `body` was delivered, and returns a non-empty
